@@ -151,6 +151,7 @@ def parse_kani_log(text):
 
 # ----------------------------------------------------------------------------- building
 
+NO_DEFAULT_FEATURES = set()
 _build_lock = threading.Lock()
 _native_built = {}
 
@@ -174,9 +175,19 @@ def native_build(crate, profile="dev"):
         cmd = ["cargo", "build", "--offline", "--quiet", "--target-dir", td]
         if profile == "release":
             cmd.append("--release")
+        if crate in NO_DEFAULT_FEATURES:
+            cmd.append("--no-default-features")
         lf = os.path.join(WORK, f"native_{crate}_{profile}.log")
         os.utime(os.path.join(cdir, "src", "main.rs"), None)
         rc = subprocess.call(cmd, cwd=cdir, stdout=open(lf, "w"), stderr=subprocess.STDOUT, env=ENV)
+        if rc != 0 and crate == "rules" and crate not in NO_DEFAULT_FEATURES:
+            # the only optional feature reads ZobristTable's private fields: if the tree's layout changed, go on
+            # without it (the field-reading C11 harnesses become INCONCLUSIVE, everything else still runs)
+            rc2 = subprocess.call(cmd + ["--no-default-features"], cwd=cdir, stdout=open(lf + ".nofeat", "w"), stderr=subprocess.STDOUT, env=ENV)
+            if rc2 == 0:
+                NO_DEFAULT_FEATURES.add(crate)
+                log(f"NOTE: crate {crate} does not build with the feature zobrist_fields against this tree (private layout of ZobristTable changed?); continuing without it")
+                rc = 0
         name = {"rules": "frules", "magic": "fmagic", "search": "fsearch"}[crate]
         binp = os.path.join(td, "release" if profile == "release" else "debug", name)
         res = (rc == 0 and os.path.exists(binp), binp, lf)
@@ -211,6 +222,8 @@ def gen_registry(crate):
     out = ["// generated by lib/runner.py gen_registry(); do not edit",
            "pub fn lookup(name: &str) -> Option<fn()> {", "    match name {"]
     for n, p in entries:
+        if "::h_zfields::" in p:
+            out.append("        #[cfg(feature = \"zobrist_fields\")]")
         out.append(f"        \"{n}\" => Some({p}),")
     out += ["        _ => None,", "    }", "}", ""]
     new = "\n".join(out)
@@ -338,6 +351,8 @@ def _run_kani(h, slot, logdir, playback, suffix="", scale=1):
         cmd += ["-Z", "concrete-playback", "--concrete-playback=print"]
     if h.stubbing:
         cmd += ["-Z", "stubbing"]
+    if h.crate in NO_DEFAULT_FEATURES:
+        cmd += ["--no-default-features"]
     cmd += h.extra_args
     t0 = time.time()
     rc, why, peak = run_limited(cmd, cdir, h.timeout_s * scale, h.mem_gb * scale, logfile)
